@@ -103,6 +103,16 @@ def stateAfter (req : List (ReqInput α)) (T nIn : Nat) (w0 : List String) (pre 
       else some (effInputs req T pre ++ List.replicate (nIn - pre.length) (List.replicate T (JNum.zero : α))),
     warnings := w0 ++ inputWarnings req pre }
 
+theorem effInputs_all_missing (req : List (ReqInput α)) (T : Nat) :
+    ∀ (l : List String), (∀ x ∈ l, findInput req x = none) →
+      effInputs req T l = List.replicate l.length (List.replicate T (JNum.zero : α))
+  | [], _ => rfl
+  | x :: xs, h => by
+    have ih := effInputs_all_missing req T xs (fun y hy => h y (by simp [hy]))
+    simp only [effInputs, List.map_cons, List.length_cons, List.replicate_succ] at ih ⊢
+    rw [ih]
+    simp [effInput, h x (by simp)]
+
 theorem set_append_replicate {β : Type} (pre : List β) (k : Nat) (z x : β) (hk : 0 < k) :
     (pre ++ List.replicate k z).set pre.length x = (pre ++ [x]) ++ List.replicate (k - 1) z := by
   obtain ⟨k', rfl⟩ : ∃ k', k = k' + 1 := ⟨k - 1, by omega⟩
@@ -158,21 +168,14 @@ theorem inputLoop_spec (req : List (ReqInput α)) (T nIn : Nat) (w0 : List Strin
       simp only [inputLoop, hf]
       by_cases hall : pre.all (fun n => (findInput req n).isNone) = true
       · -- first supplied series: allocate nIn rows of zeros and write row i
-        have hpre : effInputs req T pre = List.replicate pre.length (List.replicate T (JNum.zero : α)) := by
-          simp only [effInputs]
-          rw [List.all_eq_true] at hall
-          apply List.ext_getElem (by simp)
-          intro i h1 h2
-          simp only [List.getElem_map, List.getElem_replicate]
-          have := hall pre[i] (List.getElem_mem _)
-          simp only [Option.isNone_iff_eq_none] at this
-          simp [effInput, this]
+        have hpre : effInputs req T pre = List.replicate pre.length (List.replicate T (JNum.zero : α)) :=
+          effInputs_all_missing req T pre (by simpa [List.all_eq_true] using hall)
         simp only [stateAfter, hall, if_true, setRow, hvs]
         congr 2
         have hsplit : List.replicate nIn (List.replicate T (JNum.zero : α)) =
             List.replicate pre.length (List.replicate T JNum.zero) ++
               List.replicate (nIn - pre.length) (List.replicate T JNum.zero) := by
-          rw [← List.replicate_append_replicate]; congr 1; simp at hn; omega
+          rw [List.replicate_append_replicate]; congr 1; simp at hn; omega
         rw [hsplit, hpre]
         have := set_append_replicate (List.replicate pre.length (List.replicate T (JNum.zero : α)))
           (nIn - pre.length) (List.replicate T JNum.zero) vs hpos
@@ -204,6 +207,72 @@ theorem inputLoop_ok (req : List (ReqInput α)) (T : Nat) (w0 : List String) (na
   have := inputLoop_spec req T names.length w0 names [] (by simp) (by simpa using hl)
   rw [stateAfter_nil] at this
   simpa using this
+
+/-! ### the loop fails exactly on unequal lengths -/
+
+theorem headD_set_length {β : Type} (rows : List (List β)) (i : Nat) (vs : List β)
+    (h : vs.length = (rows.headD []).length) : ((rows.set i vs).headD []).length = (rows.headD []).length := by
+  cases rows with
+  | nil => rfl
+  | cons r rs => cases i <;> simp [h]
+
+/-- once the block is allocated, a successful loop means every later supplied series has the block's length -/
+theorem inputLoop_some_ok (req : List (ReqInput α)) (nIn : Nat) :
+    ∀ (rest : List String) (i : Nat) (s s' : InLoop α) (rows : List (List α)), s.inputs = some rows →
+      inputLoop req nIn rest i s = .ok s' → LengthsAre req (rows.headD []).length rest
+  | [], _, _, _, _, _, _ => by intro n hn; simp at hn
+  | p :: ps, i, s, s', rows, hs, hok => by
+    simp only [inputLoop] at hok
+    cases hf : findInput req p with
+    | none =>
+      simp only [hf] at hok
+      have := inputLoop_some_ok req nIn ps (i + 1) _ s' rows (by simpa using hs) hok
+      intro n hn vs hv
+      rcases List.mem_cons.mp hn with rfl | hn'
+      · rw [hf] at hv; cases hv
+      · exact this n hn' vs hv
+    | some vs =>
+      simp only [hf, hs] at hok
+      by_cases hne : vs.length ≠ (rows.headD []).length
+      · rw [if_pos hne] at hok; cases hok
+      · rw [if_neg hne] at hok
+        have hveq : vs.length = (rows.headD []).length := by simpa using hne
+        have := inputLoop_some_ok req nIn ps (i + 1) _ s' (setRow rows i vs) rfl hok
+        rw [setRow, headD_set_length rows i vs hveq] at this
+        intro n hn ws hw
+        rcases List.mem_cons.mp hn with rfl | hn'
+        · rw [hf] at hw; cases hw; exact hveq
+        · exact this n hn' ws hw
+
+/-- a successful loop (from the start) means all supplied series have one length -/
+theorem inputLoop_none_ok (req : List (ReqInput α)) (nIn : Nat) (hn : 0 < nIn) :
+    ∀ (rest : List String) (i : Nat) (s s' : InLoop α), s.inputs = none →
+      inputLoop req nIn rest i s = .ok s' → ∃ T, LengthsAre req T rest
+  | [], _, _, _, _, _ => ⟨0, by intro n hn; simp at hn⟩
+  | p :: ps, i, s, s', hs, hok => by
+    simp only [inputLoop] at hok
+    cases hf : findInput req p with
+    | none =>
+      simp only [hf] at hok
+      obtain ⟨T, hT⟩ := inputLoop_none_ok req nIn hn ps (i + 1) _ s' (by simpa using hs) hok
+      refine ⟨T, ?_⟩
+      intro n hn vs hv
+      rcases List.mem_cons.mp hn with rfl | hn'
+      · rw [hf] at hv; cases hv
+      · exact hT n hn' vs hv
+    | some vs =>
+      simp only [hf, hs] at hok
+      have hrows : (((List.replicate nIn (List.replicate vs.length (JNum.zero : α))).set i vs).headD []).length
+          = vs.length := by
+        obtain ⟨k, rfl⟩ : ∃ k, nIn = k + 1 := ⟨nIn - 1, by omega⟩
+        cases i <;> simp [List.replicate_succ]
+      have := inputLoop_some_ok req nIn ps (i + 1) _ s' _ rfl hok
+      rw [setRow, hrows] at this
+      refine ⟨vs.length, ?_⟩
+      intro n hn ws hw
+      rcases List.mem_cons.mp hn with rfl | hn'
+      · rw [hf] at hw; cases hw; rfl
+      · exact this n hn' ws hw
 
 end
 end OW.Sim.Json
